@@ -328,6 +328,56 @@ example :
     fin.2[2]?.map (·.regs 2) = some 43 ∧ fin.2[3]?.map (·.regs 2) = some 100 ∧ fin.1 fnLoc = 99 := by
   decide
 
+/-- **the defect this model exhibits, and the implementation had (finding D10, repaired by a `fix:` commit)**: two UNSERIALISED
+    recompilers of different sources.  Thread 0 installs its function, thread 1 installs its function AND stores its digest, then thread 0
+    stores its digest: the function of source 12 (99) ends up installed under the digest of source 11 — after which `recompile(source 11)`
+    finds the digest unchanged and is silently skipped.  (Found on the real code by the one-preemption schedule exploration, replayed here.) -/
+example :
+    let fin := runSched (mem7, [ckRecompiler 11 42, ckRecompiler 12 99]) [0, 0, 0, 0, 0, 0, 1, 1, 1, 1, 1, 1, 1, 0]
+    fin.1 fnLoc = 99 ∧ fin.1 ckLoc = 11 := by
+  decide
+
+/-- … and then a third recompile back to source 11 changes nothing: the evaluator keeps running the function of source 12 -/
+example :
+    let fin := runSched (mem7, [ckRecompiler 11 42, ckRecompiler 12 99, ckRecompiler 11 42])
+      [0, 0, 0, 0, 0, 0, 1, 1, 1, 1, 1, 1, 1, 0, 2, 2, 2, 2, 2, 2, 2]
+    fin.1 fnLoc = 99 ∧ fin.1 ckLoc = 11 := by
+  decide
+
 end C17Examples
+
+/-! ### serialised recompiles
+
+  With `recompile` under one lock (table obligation `C17_recompile_serialised`, re-extracted from /repo: every store to the installed
+  function and to the checksum, and the test of the checksum, sit inside one `with <lock>` block) a recompile is ONE step of the
+  evaluator: `(ck, fn) ↦ if ck = d then (ck, fn) else (d, code d)`.  Whatever the order in which the threads get the lock, the
+  installed function is always the code of the stored digest. -/
+
+/-- one serialised recompile to the source with digest `d`, whose compiled function is `code d` -/
+def lockedRecompile (code : Val → Val) (st : Val × Val) (d : Val) : Val × Val :=
+  if st.1 = d then st else (d, code d)
+
+/-- **invariant**: after any sequence of serialised recompiles (any threads, any order), function and digest belong together -/
+theorem C17_serialised_recompiles_consistent (code : Val → Val) (st : Val × Val) (h : st.2 = code st.1) (ds : List Val) :
+    (ds.foldl (lockedRecompile code) st).2 = code (ds.foldl (lockedRecompile code) st).1 := by
+  induction ds generalizing st with
+  | nil => simpa using h
+  | cons d ds ih =>
+      apply ih
+      unfold lockedRecompile
+      split
+      · exact h
+      · rfl
+
+/-- … and the last recompile wins: a recompile to `d` leaves the evaluator running `code d`, whatever happened before -/
+theorem C17_serialised_recompile_installs (code : Val → Val) (st : Val × Val) (h : st.2 = code st.1) (d : Val) :
+    (lockedRecompile code st d) = (d, code d) := by
+  unfold lockedRecompile
+  split
+  · rename_i he; cases st; simp_all
+  · rfl
+
+/-- **table obligation** (re-extracted from /repo): `recompile` is serialised -/
+theorem C17_recompile_serialised : Generated.recompileSerialised = true := by decide
 
 end Pyab.Properties
